@@ -188,9 +188,16 @@ def tunnel_events(ctx, rng):
     from websocket._exceptions import WebSocketProxyException
     ev = []
     replies = [200, 201, 301, 403, 407, 500, "garbage", "eof"]
-    auths = [None, ("user", None), ("user", "pass"), ("us er", "p:w")]
+    auths = [None, ("user", None), ("user", "pass"), ("us er", "p:w"),
+             # more than 57 bytes of "user:password": base64 output longer than one 76-character line
+             ("alice.smith@corp.example.com", "token-" + "x" * 60), ("u" * 57, "p"), ("u" * 200, "p" * 200)]
     origins = [("origin.test", 0), ("origin.test", 8080), ("10.1.2.3", 81), ("origin.test", 443)]
-    for reply, auth, (oh, oport), via in itertools.product(replies, auths, origins, ("option", "env")):
+    import logging
+    for reply, auth, (oh, oport), via, tr in itertools.product(replies, auths, origins, ("option", "env"), (False, True)):
+        if tr and (auth is None or reply not in (200, 407) or oport not in (0, 81)):
+            continue          # debug tracing on: a sample (what is logged must not change what is sent)
+        if auth and len(auth[0]) > 50 and (reply not in (200, 403) or oport not in (0, 8080)):
+            continue
         peers = []
 
         def factory(world, sock, address, reply=reply):
@@ -208,16 +215,26 @@ def tunnel_events(ctx, rng):
         else:
             if auth and auth[1] is None:
                 continue
-            cred = "%s:%s@" % (auth[0].replace(" ", "%20"), auth[1].replace(":", "%3A")) if auth else ""
+            cred = "%s:%s@" % (auth[0].replace(" ", "%20").replace("@", "%40"), auth[1].replace(":", "%3A")) if auth else ""
             env = {"http_proxy": "http://%sproxy.test:3128" % cred}
         exc = None
-        with clean_env(**env), w:
-            ws = websocket.WebSocket()
-            ws.settimeout(2)
-            try:
-                ws.connect(url, **kw)
-            except Exception as e:
-                exc = e
+        lg = logging.getLogger("websocket")
+        lg_state = (lg.level, list(lg.handlers))
+        if tr:
+            websocket.enableTrace(True, handler=logging.NullHandler(), level="DEBUG")
+        try:
+            with clean_env(**env), w:
+                ws = websocket.WebSocket()
+                ws.settimeout(2)
+                try:
+                    ws.connect(url, **kw)
+                except Exception as e:
+                    exc = e
+        finally:
+            if tr:
+                websocket.enableTrace(False, handler=logging.NullHandler())
+                lg.setLevel(lg_state[0])
+                lg.handlers = lg_state[1]
         p = peers[0] if peers else None
         lines = (p.connect_req or b"").decode("latin-1").split("\r\n") if p else [""]
         creds = ""
@@ -246,7 +263,7 @@ def tunnel_events(ctx, rng):
                    "wsHost": wshost, "expectWsHost": oh if eport in (80, 443) else "%s:%d" % (oh, eport),
                    "raisedProxy": isinstance(exc, WebSocketProxyException), "closed": bool(p and p.sock.closed),
                    "dialHost": res[0]["host"] if res else "", "dialPort": res[0]["port"] if res else 0,
-                   "proxyHost": "proxy.test", "proxyPort": 3128, "via": via, "exc": type(exc).__name__ if exc else ""})
+                   "proxyHost": "proxy.test", "proxyPort": 3128, "via": via, "exc": type(exc).__name__ if exc else "", "trace": tr})
     return ev
 
 
